@@ -100,6 +100,11 @@ def run_case(sess, mod, tname, t, x, feats, acc):
     vfeats = feats | pipeline.value_features(mod, t, v)
     refder = ref_ber.encode(mod, t, v)
     replay = make_replay(mod, tname, t, x)
+    if len(refder) > 12000 and raw is None and not getattr(acc, "probe", False):
+        # the reference encoders work bit by bit in Python: tens of kilobytes cost seconds per case and add nothing
+        # that smaller values of the same type do not show (sizes at the 16K/64K fragmentation points are C02's catalogue)
+        acc.excluded["value too large for the variant generators (> 12000 octets of DER)"] += 1
+        return None
     ch = ListChooser(decisions, XER_ENABLED if syn == "xer" else None)
     if KNOWN.is_known(PID, "ber.tagchain.mixed-definite-indefinite") and not getattr(acc, "probe", False):
         ch.no_mixed_chain = True
